@@ -30,33 +30,7 @@ func (c *Ctx) ruleRegexExampleProbed(rule string) {
 	// (1) probes
 	var probes []*Fn
 	for _, f := range c.libFns() {
-		fl, ok := hasDeferredRecover(f)
-		if !ok {
-			continue
-		}
-		// the handler assigns a named error result
-		named := map[types.Object]bool{}
-		if f.Decl.Type.Results != nil {
-			for _, fld := range f.Decl.Type.Results.List {
-				for _, nm := range fld.Names {
-					if o := f.Pkg.TypesInfo.Defs[nm]; o != nil && isErrorLike(o.Type()) {
-						named[o] = true
-					}
-				}
-			}
-		}
-		assigns := false
-		ast.Inspect(fl.Body, func(n ast.Node) bool {
-			if as, ok := n.(*ast.AssignStmt); ok {
-				for _, l := range as.Lhs {
-					if id, ok := l.(*ast.Ident); ok && named[f.Pkg.TypesInfo.Uses[id]] {
-						assigns = true
-					}
-				}
-			}
-			return true
-		})
-		if !assigns {
+		if found, assigns, _ := c.recoverSetsNamedError(f); !found || !assigns {
 			continue
 		}
 		// Example on a schema made here
